@@ -327,7 +327,7 @@ func TestMutants(t *testing.T) {
 		return
 	}
 	syms := append([]string{}, ipAlphabet...)
-	syms = append(syms, "::", "-", "+", " ", "x", "F", "\x00", "é", "6", "３")
+	syms = append(syms, "::", "-", "+", " ", "x", "F", "\x00", "é", "6", "３", "\x10", "\x11", "\x19", "\x1a", "\x0f", "\x7f", "\x80", "G", "`", "@")
 	seeds := canonical()
 	seedSet := map[string]bool{}
 	for _, s := range seeds {
